@@ -385,10 +385,19 @@ def run_config(chk, facts):
                               "handling it locally turns a cyclic paint graph into a success")
 
     enter = chk.anchor("C13-c", ENTER, facts.body(ENTER))
+    # the two fields of the decycler by type, not by name: the array of ids on the path and the integer depth
+    IDS, DEPTH = "node_ids", "depth"
+    for r in facts.records("adt", "skrifa"):
+        if r.get("path", "").endswith("decycler::Decycler") and r.get("variants"):
+            flds = r["variants"][0][1]
+            arr = [n for n, ty, _ in flds if ty.startswith("[") and ";" in ty]
+            ints = [n for n, ty, _ in flds if ty in ("usize", "u32", "u16", "u8")]
+            if len(arr) == 1 and len(ints) == 1:
+                IDS, DEPTH = arr[0], ints[0]
     # enter: the write node_ids[depth] = id is dominated by depth < D true edge; Ok exit only after depth += 1
     writes = []
     for bb, j, st in enter.stmts():
-        if st[0] == "A" and st[1][1] and any(isinstance(e, list) and e[0] == "f" and e[2] == "node_ids" for e in st[1][1]):
+        if st[0] == "A" and st[1][1] and any(isinstance(e, list) and e[0] == "f" and e[2] == IDS for e in st[1][1]):
             writes.append((bb, st))
     chk.ob("C13-c", f"Decycler::enter writes node_ids in {len(writes)} place(s)", len(writes) == 1,
            key="enter|writes", file=enter.file, line=enter.lo, fn=enter.path)
@@ -396,14 +405,14 @@ def run_config(chk, facts):
     guard_ok = False
     for gbb, op, a, b2, t_true, t_false in _cmp_guards(enter):
         sa, sb = show(enter, a), show(enter, b2)
-        if op == "Lt" and "depth" in sa and (b2[0] == "const" or "D" in sb):
+        if op == "Lt" and DEPTH in sa and (b2[0] == "const" or "D" in sb):
             if writes and enter.dominates(t_true, writes[0][0]) and writes[0][0] not in enter.reachable_from(t_false):
                 guard_ok = True
     chk.ob("C13-c", "Decycler::enter: `depth < D` dominates the node_ids write", guard_ok, key="enter|guard",
            file=enter.file, line=enter.lo, fn=enter.path,
            detail="the store into node_ids[depth] is not dominated by the true edge of `self.depth < D`")
     # Ok exits of enter pass through depth += 1
-    incs = [bb for bb, j, st in enter.stmts() if st[0] == "A" and st[1][1] and st[1][1][-1][0] == "f" and st[1][1][-1][2] == "depth"]
+    incs = [bb for bb, j, st in enter.stmts() if st[0] == "A" and st[1][1] and st[1][1][-1][0] == "f" and st[1][1][-1][2] == DEPTH]
     oks = [bb for bb, j, st in enter.stmts() if st[0] == "A" and st[1] == [0, []] and st[2][0] == "agg" and st[2][1][:1] == ["adt"] and st[2][1][3] == "Ok"]
     chk.ob("C13-c", "Decycler::enter: every Ok is preceded by depth += 1",
            bool(incs) and bool(oks) and all(any(enter.dominates(i, o) for i in incs) for o in oks),
@@ -413,7 +422,7 @@ def run_config(chk, facts):
     d = drop[0]
     dec = False
     for bb, j, st in d.stmts():
-        if st[0] == "A" and st[1][1] and st[1][1][-1][0] == "f" and st[1][1][-1][2] == "depth":
+        if st[0] == "A" and st[1][1] and st[1][1][-1][0] == "f" and st[1][1][-1][2] == DEPTH:
             e = expr_of(d, st[2][1]) if st[2][0] == "use" else None
             if e and e[0] == "bin" and e[1] == "Sub":
                 dec = True
